@@ -123,7 +123,10 @@ func (c *Case) fix() {
 // expectFromModel runs prog on a model machine and packages the outcome.
 func expectFromModel(m *lang.Machine, prog *lang.Program) Expect {
 	v, err := m.Run(prog)
-	e := Expect{Quirk: m.Quirk, Trace: append([]string(nil), m.Trace...)}
+	e := Expect{Quirk: m.Quirk, Trace: append([]string(nil), m.Trace...), Globals: map[string]lang.Value{}}
+	for k, gv := range m.Globals {
+		e.Globals[k] = gv
+	}
 	if err != nil {
 		switch {
 		case lang.IsKind(err, lang.ErrRuntime):
@@ -168,9 +171,38 @@ func checkResult(res eng.Result, exp Expect) error {
 	if !lang.DeepEqual(res.Val, exp.Val) || res.Val.Inspect() != exp.Val.Inspect() {
 		return fmt.Errorf("expected %s, got %s", exp.Val.Describe(), res.Val.Describe())
 	}
+	return nil
+}
+
+// checkEffects compares host calls and resulting variables (after
+// checkResult has passed). Skipped outside the specified part and when a
+// pinned (quirk) behaviour was replaced by an error.
+func checkEffects(res eng.Result, exp Expect) error {
+	if exp.Unspec || (exp.Quirk && res.Err != nil) {
+		return nil
+	}
 	if exp.CheckTrace {
 		if strings.Join(res.Trace, "|") != strings.Join(exp.Trace, "|") {
-			return fmt.Errorf("host calls differ: expected %v, got %v", exp.Trace, res.Trace)
+			return fmt.Errorf("host calls differ: expected %s, got %s", clip(fmt.Sprint(exp.Trace), 1500), clip(fmt.Sprint(res.Trace), 1500))
+		}
+	}
+	if exp.CheckGlobals && res.Globals != nil {
+		for _, k := range sortedKeys(exp.Globals) {
+			got, ok := res.Globals[k]
+			if !ok {
+				return fmt.Errorf("variable %s: expected %s, but it is not set", k, exp.Globals[k].Describe())
+			}
+			if !lang.DeepEqual(got, exp.Globals[k]) || got.Inspect() != exp.Globals[k].Inspect() {
+				return fmt.Errorf("variable %s: expected %s, got %s", k, exp.Globals[k].Describe(), got.Describe())
+			}
+		}
+		for _, k := range sortedKeys(res.Globals) {
+			if k == "OPTIMIZE" || k == "DEBUG" {
+				continue
+			}
+			if _, ok := exp.Globals[k]; !ok {
+				return fmt.Errorf("variable %s=%s is set but the script never assigned it", k, res.Globals[k].Describe())
+			}
 		}
 	}
 	return nil
@@ -186,7 +218,10 @@ func runCase(c *Case) error {
 		obj = c.Obj.Build()
 	}
 	res := eng.Quick(c.Script, obj, c.Vars, c.NoOpt)
-	return checkResult(res, c.Exp)
+	if err := checkResult(res, c.Exp); err != nil {
+		return err
+	}
+	return checkEffects(res, c.Exp)
 }
 
 // ---- replay files and violation markers ----
@@ -229,6 +264,9 @@ type failer interface {
 func violation(t failer, prop string, payload interface{}, format string, args ...interface{}) {
 	t.Helper()
 	msg := fmt.Sprintf(format, args...)
+	if len(msg) > 4000 {
+		msg = msg[:4000] + "...(clipped)"
+	}
 	if c, ok := payload.(*Case); ok {
 		c.Msg = msg
 		c.Prop = prop
